@@ -28,6 +28,7 @@ import (
 	"go/types"
 	"path/filepath"
 	"regexp"
+	"sort"
 	"strings"
 )
 
@@ -70,10 +71,11 @@ type ftarget struct {
 	// section's held list, for an explicit obligation on the Coq side (LocksetMore.no_reacquire)
 	reentrant bool
 	// filled in by resolve(): Go field path -> role name
-	locks     map[string]string
-	fields    map[string]string
-	objects   map[string][]string
-	chanState map[string]bool
+	locks       map[string]string
+	fields      map[string]string
+	objects     map[string][]string
+	chanState   map[string]bool
+	prefixTypes map[string]string // nested: field of the target -> name of the file-local struct type it holds
 }
 
 type fgroup struct {
@@ -93,6 +95,7 @@ var fgroups = []fgroup{
 			{canon: "maxPartitions", typ: `^int$`, nth: 1},
 			{canon: "config", typ: "@localstruct"},
 		},
+		nested:  true,
 		defName: "cache_skeleton",
 		comment: "FifoMapCache: fields partitions, valuePartitionIndex, currentPartitionId, maxPartitions, partitionCapacity, config;\n   locks currentPartitionMux (RWMutex), sweepingMux (Mutex) — role names; the Go fields are found by type.\n   Calls into GenericStack / SafeMap are reads of the field.  One entry per exported method; private helpers are inlined.",
 	}}},
@@ -100,12 +103,14 @@ var fgroups = []fgroup{
 		file: "workqueue/queue.go", typeName: "Queue",
 		lockSpecs:  []lockSpec{{"errSubScriberMux", "Mutex", 0}},
 		fieldSpecs: []fieldSpec{{canon: "errorSubscribers", typ: `^\[\]chan error$`}},
+		nested:     true,
 		defName:    "wq_err_skeleton",
 		comment:    "Queue: the slice of error-subscriber channels ([]chan error, role name errorSubscribers) under the Queue's\n   sync.Mutex (role name errSubScriberMux) — property C14.",
 	}, {
 		file: "workqueue/queue.go", typeName: "Queue",
 		lockSpecs:  []lockSpec{{"errSubScriberMux", "Mutex", 0}},
 		fieldSpecs: []fieldSpec{{canon: "breaked", typ: `^bool$`}, {canon: "workQueue", typ: `^\*workHeap$`, object: []string{"Len"}}},
+		nested:     true,
 		defName:    "wq_shared_skeleton",
 		comment:    "EXPLORATION ONLY (no property depends on it): the plain bool of Queue (Break's flag) and the heap object behind\n   the *workHeap field, which has no synchronisation of its own (every method call except Len counts as a write).",
 	}}},
@@ -189,11 +194,13 @@ type fval struct {
 // spawn: a goroutine started by an analysed entry: a closure (lit) or an unexported method/function (fd); it becomes a
 // skeleton entry "<entry>.go<k>" of its own, analysed with no lock held
 type spawn struct {
-	name  string
-	lit   *ast.FuncLit
-	fd    *ast.FuncDecl
-	recv  []types.Object // objects denoting the receiver inside a closure
-	depth int
+	name     string
+	lit      *ast.FuncLit
+	fd       *ast.FuncDecl
+	recv     []types.Object // objects denoting the receiver inside a closure
+	depth    int
+	prefix   string                  // fd is a method of a struct held inside the target: the path of that part
+	prefixes map[types.Object]string // closure: receivers of such methods that it may capture
 }
 
 // shared by all entries of one target
@@ -228,6 +235,8 @@ type fan struct {
 	root    map[types.Object]types.Object // foreign mode: receiver of an inlined method -> the caller's variable
 	lockObj types.Object                  // foreign mode: the variable through which the lock operation being analysed goes
 	callObj types.Object                  // foreign mode: the variable the method being inlined is called on
+	prefix  map[types.Object]string       // receivers of methods of structs held inside the target -> that part's path
+	bindAs  string                        // path the receiver of the method about to be inlined stands for ("" = the whole target)
 }
 
 func (a *fan) fail(pos token.Pos, format string, args ...interface{}) {
@@ -249,6 +258,11 @@ func structFields(st *ast.StructType) []namedField {
 		for _, n := range f.Names {
 			r = append(r, namedField{n.Name, f.Type})
 		}
+		if len(f.Names) == 0 { // embedded: the field is called like its type
+			if base, _ := baseTypeName(f.Type); base != "" {
+				r = append(r, namedField{base, f.Type})
+			}
+		}
 	}
 	return r
 }
@@ -259,7 +273,7 @@ func pick(cands []string, canon string, nth int) (string, bool) {
 		return cands[0], true
 	}
 	for _, c := range cands {
-		if c == canon {
+		if c == canon || strings.HasSuffix(c, "."+canon) {
 			return c, true
 		}
 	}
@@ -277,6 +291,7 @@ func (fc *fileCtx) resolve(t *ftarget) (map[string]bool, map[string]fieldKind, e
 		return nil, nil, fmt.Errorf("struct type %s not declared", t.typeName)
 	}
 	fs := structFields(st)
+	innerType := map[string]string{}
 	if t.nested {
 		for _, f := range structFields(st) {
 			base, _ := baseTypeName(f.typ)
@@ -284,6 +299,7 @@ func (fc *fileCtx) resolve(t *ftarget) (map[string]bool, map[string]fieldKind, e
 				for _, g := range structFields(inner) {
 					fs = append(fs, namedField{f.name + "." + g.name, g.typ})
 				}
+				innerType[f.name] = base
 			}
 		}
 	}
@@ -378,6 +394,16 @@ func (fc *fileCtx) resolve(t *ftarget) (map[string]bool, map[string]fieldKind, e
 			}
 		default:
 			return nil, nil, fmt.Errorf("%s.%s has an unsupported type %T", t.typeName, name, ft)
+		}
+	}
+	// the file-local struct types that host a lock or a tracked field (their methods are analysed with the receiver
+	// bound to that part of the target)
+	t.prefixTypes = map[string]string{}
+	for _, m := range []map[string]string{t.locks, t.fields} {
+		for path := range m {
+			if i := strings.Index(path, "."); i > 0 {
+				t.prefixTypes[path[:i]] = innerType[path[:i]]
+			}
 		}
 	}
 	return lockRW, kinds, nil
@@ -624,6 +650,25 @@ func (a *fan) sameObject(o types.Object, pos token.Pos) {
 	}
 }
 
+// selPath: the field names along a (possibly promoted) field selection
+func selPath(sel *types.Selection) (string, bool) {
+	t := sel.Recv()
+	var names []string
+	for _, i := range sel.Index() {
+		t = types.Unalias(t)
+		if p, ok := t.Underlying().(*types.Pointer); ok {
+			t = types.Unalias(p.Elem())
+		}
+		st, ok := t.Underlying().(*types.Struct)
+		if !ok || i >= st.NumFields() {
+			return "", false
+		}
+		names = append(names, st.Field(i).Name())
+		t = st.Field(i).Type()
+	}
+	return strings.Join(names, "."), len(names) > 0
+}
+
 // resolveQuiet: like resolve, but without the same-object check (used to inspect code that is not being executed)
 func (a *fan) resolveQuiet(e ast.Expr) fval {
 	saved := a.st
@@ -639,6 +684,9 @@ func (a *fan) resolve(e ast.Expr) fval {
 		if o := a.objOf(e); o != nil {
 			if a.recv[o] {
 				return fval{k: vRecv, obj: o}
+			}
+			if p, ok := a.prefix[o]; ok { // the receiver of a method of a struct held inside the target
+				return fval{k: vPrefix, name: p}
 			}
 			if a.t.foreign && isTargetValue(a.fc, e, a.t.typeName) {
 				return fval{k: vRecv, obj: o}
@@ -660,8 +708,11 @@ func (a *fan) resolve(e ast.Expr) fval {
 			if sel == nil {
 				a.fail(e.Pos(), "cannot resolve selector .%s on the receiver", e.Sel.Name)
 			}
-			if sel.Kind() == types.FieldVal && len(sel.Index()) == 1 {
-				path := e.Sel.Name
+			if sel.Kind() == types.FieldVal {
+				path, ok := selPath(sel) // more than one component when the field is promoted from an embedded struct
+				if !ok {
+					a.fail(e.Pos(), "cannot follow the selection .%s", e.Sel.Name)
+				}
 				if xv.k == vPrefix {
 					path = xv.name + "." + path
 				}
@@ -978,7 +1029,11 @@ func (a *fan) call(c *ast.CallExpr) fval {
 		case vMethod, vAppend:
 			a.useVal(xv, c.Pos())
 		case vPrefix:
-			a.fail(c.Pos(), "method call on %s, which holds a lock or a guarded field", xv.name)
+			// a method of the struct that this part of the target is: analysed in place, its receiver bound to the part
+			fd := a.prefixMethod(xv.name, f, c.Pos())
+			a.useArgs(c.Args)
+			a.splicePrefix(fd, xv.name, c.Pos())
+			return fval{}
 		}
 		a.use(f.X)
 		a.useArgs(c.Args)
@@ -1118,18 +1173,59 @@ func (a *fan) inline(fd *ast.FuncDecl, rid *ast.Ident) {
 	a.active[fd] = true
 	a.sp.reached[fd] = true
 	a.depth++
-	if rid != nil {
+	if rid != nil && a.bindAs != "" {
+		o := a.fc.info.Defs[rid]
+		if o == nil {
+			a.fail(rid.Pos(), "cannot resolve %s", rid.Name)
+		}
+		a.prefix[o] = a.bindAs
+	} else if rid != nil {
 		a.bindRecv(rid)
 		if o := a.fc.info.Defs[rid]; o != nil && a.callObj != nil {
 			a.root[o] = a.rootOf(a.callObj) // foreign mode: the callee's receiver IS the caller's variable
 		}
 	}
-	a.callObj = nil
+	a.callObj, a.bindAs = nil, ""
 	a.block(fd.Body.List)
 	a.endFrame(fd.Body.Rbrace)
 	a.depth--
 	delete(a.active, fd)
 	a.fr, a.loops, a.breaks, a.labels = saveFr, saveLoops, saveBreaks, saveLabels
+}
+
+// prefixMethod: the declaration of the method .Sel of the file-local struct type held in the part [prefix] of the target
+func (a *fan) prefixMethod(prefix string, f *ast.SelectorExpr, pos token.Pos) *ast.FuncDecl {
+	tn := a.localTypeOf(f.X)
+	if tn == "" {
+		tn = a.t.prefixTypes[prefix]
+	}
+	fd := a.fc.methods[tn][f.Sel.Name]
+	if tn == "" || fd == nil {
+		a.fail(pos, "method call .%s on %s, which holds a lock or a guarded field, cannot be resolved in this file", f.Sel.Name, prefix)
+	}
+	return fd
+}
+
+func (a *fan) splicePrefix(fd *ast.FuncDecl, prefix string, pos token.Pos) {
+	if a.depth >= maxDepth {
+		a.fail(pos, "call depth limit %d exceeded", maxDepth)
+	}
+	if a.active[fd] {
+		a.fail(pos, "recursive call cycle through %s", fd.Name.Name)
+	}
+	if fd.Body == nil {
+		a.fail(pos, "method %s has no body", fd.Name.Name)
+	}
+	recv := fd.Recv.List[0]
+	if _, ptr := baseTypeName(recv.Type); !ptr {
+		a.fail(pos, "method %s has a value receiver (copies the struct that holds a lock or a guarded field)", fd.Name.Name)
+	}
+	var rid *ast.Ident
+	if len(recv.Names) == 1 && recv.Names[0].Name != "_" {
+		rid = recv.Names[0]
+	}
+	a.bindAs = prefix
+	a.inline(fd, rid)
 }
 
 // inlineForeign: foreign mode — a function of the file, or a method of another type of the file, is analysed in place
@@ -1580,7 +1676,11 @@ func (a *fan) goStmt(s *ast.GoStmt) {
 		for o := range a.recv {
 			rs = append(rs, o)
 		}
-		a.newSpawn(s, spawn{lit: lit, recv: rs})
+		ps := map[types.Object]string{}
+		for o, p := range a.prefix {
+			ps[o] = p
+		}
+		a.newSpawn(s, spawn{lit: lit, recv: rs, prefixes: ps})
 		return
 	}
 	if sel, ok := fun.(*ast.SelectorExpr); ok && a.resolve(sel.X).k == vRecv {
@@ -1596,6 +1696,18 @@ func (a *fan) goStmt(s *ast.GoStmt) {
 			return
 		}
 		a.fail(s.Pos(), "go statement on something of the receiver that is not one of its methods")
+	}
+	if sel, ok := fun.(*ast.SelectorExpr); ok {
+		if xv := a.resolve(sel.X); xv.k == vPrefix {
+			fd := a.prefixMethod(xv.name, sel, s.Pos())
+			if _, ptr := baseTypeName(fd.Recv.List[0].Type); !ptr {
+				a.fail(s.Pos(), "method %s has a value receiver (copies the struct that holds a lock or a guarded field)", fd.Name.Name)
+			}
+			a.useArgs(s.Call.Args)
+			a.sp.reached[fd] = true
+			a.newSpawn(s, spawn{fd: fd, prefix: xv.name})
+			return
+		}
 	}
 	// a goroutine running an untracked function: arguments are evaluated here (the receiver must not be among them)
 	a.use(fun)
@@ -1626,7 +1738,7 @@ func newFan(fc *fileCtx, t ftarget, lockRW map[string]bool, kinds map[string]fie
 	}
 	return &fan{fc: fc, t: t, lockRW: lockRW, kinds: kinds, ro: ro, recv: map[types.Object]bool{},
 		active: map[*ast.FuncDecl]bool{}, labels: map[string][]fheld{}, sp: sp, name: name, sites: map[ast.Node]bool{},
-		root: map[types.Object]types.Object{}}
+		root: map[types.Object]types.Object{}, prefix: map[types.Object]string{}}
 }
 
 func catch(fc *fileCtx, e *fentry) {
@@ -1661,7 +1773,8 @@ func paramIdent(fd *ast.FuncDecl, k int) *ast.Ident {
 // analyseBody: one entry of the skeleton = the body of a method/function (rid denotes the receiver) or of a closure
 // (the objects recv denote the receiver), started with no lock held
 func analyseBody(fc *fileCtx, t ftarget, lockRW map[string]bool, kinds map[string]fieldKind, sp *spawnSet,
-	name string, fd *ast.FuncDecl, rid *ast.Ident, lit *ast.FuncLit, recv []types.Object, sdepth int) (e fentry) {
+	name string, fd *ast.FuncDecl, rid *ast.Ident, lit *ast.FuncLit, recv []types.Object, sdepth int,
+	prefix string, prefixes map[types.Object]string) (e fentry) {
 	e.name = name
 	defer catch(fc, &e)
 	a := newFan(fc, t, lockRW, kinds, sp, name)
@@ -1675,12 +1788,21 @@ func analyseBody(fc *fileCtx, t ftarget, lockRW map[string]bool, kinds map[strin
 			a.fail(fd.Pos(), "no body")
 		}
 		if rid != nil && rid.Name != "_" {
-			a.bindRecv(rid)
+			if prefix != "" { // a method of a struct held inside the target: its receiver is that part
+				if o := fc.info.Defs[rid]; o != nil {
+					a.prefix[o] = prefix
+				}
+			} else {
+				a.bindRecv(rid)
+			}
 		}
 	} else {
 		body = lit.Body
 		for _, o := range recv {
 			a.recv[o] = true
+		}
+		for o, p := range prefixes {
+			a.prefix[o] = p
 		}
 	}
 	if sdepth > maxSpawnDepth {
@@ -1818,7 +1940,7 @@ func analyseFieldTarget(fc *fileCtx, t ftarget) []fentry {
 			if s.fd != nil && s.fd.Recv != nil && len(s.fd.Recv.List[0].Names) == 1 {
 				rid = s.fd.Recv.List[0].Names[0]
 			}
-			out = append(out, analyseBody(fc, t, lockRW, kinds, sp, s.name, s.fd, rid, s.lit, s.recv, s.depth))
+			out = append(out, analyseBody(fc, t, lockRW, kinds, sp, s.name, s.fd, rid, s.lit, s.recv, s.depth, s.prefix, s.prefixes))
 		}
 	}
 	pass := func(exported bool) {
@@ -1833,7 +1955,7 @@ func analyseFieldTarget(fc *fileCtx, t ftarget) []fentry {
 				out = append(out, fentry{name: name(c.fd), unknown: true,
 					reason: fmt.Sprintf("%s: %s", fc.fset.Position(c.fd.Pos()), c.bad)})
 			default:
-				out = append(out, analyseBody(fc, t, lockRW, kinds, sp, name(c.fd), c.fd, c.recv, nil, nil, 0))
+				out = append(out, analyseBody(fc, t, lockRW, kinds, sp, name(c.fd), c.fd, c.recv, nil, nil, 0, "", nil))
 				drain()
 			}
 		}
@@ -1848,6 +1970,40 @@ func analyseFieldTarget(fc *fileCtx, t ftarget) []fentry {
 		}
 	}
 	pass(false)
+	if verr == nil {
+		// methods of the file-local structs that hold a lock or a tracked field, reached from nowhere: entries of their
+		// own ("Type.method"), the receiver bound to that part of the target
+		var prefixes []string
+		for p := range t.prefixTypes {
+			prefixes = append(prefixes, p)
+		}
+		sort.Strings(prefixes)
+		for _, pfx := range prefixes {
+			tn := t.prefixTypes[pfx]
+			for _, d := range fc.file.Decls {
+				fd, ok := d.(*ast.FuncDecl)
+				if !ok || fd.Recv == nil || len(fd.Recv.List) != 1 || sp.reached[fd] {
+					continue
+				}
+				base, ptr := baseTypeName(fd.Recv.List[0].Type)
+				if base != tn || tn == "" {
+					continue
+				}
+				if !ptr {
+					out = append(out, fentry{name: tn + "." + fd.Name.Name, unknown: true,
+						reason: fmt.Sprintf("%s: value receiver (copies the struct that holds a lock or a guarded field)", fc.fset.Position(fd.Pos()))})
+					continue
+				}
+				var rid *ast.Ident
+				if len(fd.Recv.List[0].Names) == 1 {
+					rid = fd.Recv.List[0].Names[0]
+				}
+				sp.reached[fd] = true
+				out = append(out, analyseBody(fc, t, lockRW, kinds, sp, tn+"."+fd.Name.Name, fd, rid, nil, nil, 0, pfx, nil))
+				drain()
+			}
+		}
+	}
 	if verr != nil && len(out) == 0 {
 		out = append(out, fentry{name: "<" + t.typeName + ">", unknown: true, reason: verr.Error()})
 	}
